@@ -2,6 +2,19 @@
 """writes MANIFEST.json from the table below (kept in one place so that it stays valid)"""
 import json
 CHECKS = {
+ "C10": dict(
+   text="Proof. Splitting schemes: on the regenerated tables every stage is a shear, the schemes are palindromic and consistent (verified "
+        "computation); the Lean model of the coded step equals the composition of its drift/kick stage maps; for EVERY separable autonomous "
+        "system over arbitrary Q-modules, every state and every h, a palindromic scheme of shears satisfies step(-h) o step(h) = id "
+        "(palindromic_reversible); the product of the stage Jacobians (shears with symmetric Hessian blocks, any number of degrees of "
+        "freedom) is in Mathlib's symplectic group (M J M^T = J). Implicit methods flagged symplectic: b_i a_ij + b_j a_ji - b_i b_j = 0 and "
+        "table symmetry to 1e-14 on the generated coefficients. Cited: chain rule for the Jacobian of the composition, Lasagni/Sanz-Serna/"
+        "Suris theorem, backward error analysis (no secular energy drift). Measured on the implementation: M^T J M = J by finite "
+        "differences, h then -h, long-run energy, for all 6 methods, 4 Hamiltonians, two variable orderings (kick masks).",
+   note="Trusted: Lean kernel, standard axioms, translate.py, harness. The step model is tied to the code by C02's exact-rational "
+        "correspondence incl. random kick masks.",
+   technique="Lean 4 proof (Mathlib symplectic group; list induction for reversibility; verified computation on generated tables) + finite-difference measurements",
+   design="5 (C10)"),
  "C05": dict(
    text="Partial proof. Proved: the arctan limiter keeps the correction factor in [1 - pi/4, 1 + pi/2) for every non-negative raw correction "
         "(Mathlib real analysis), so proposals keep the sign of the step and never vanish and a rejection (corr < 0.81) proposes a strictly "
